@@ -162,9 +162,10 @@ def chain_part(ck, seed, thorough, corrupt=None):
     combos = []
     for prop, outl, conc, thin, iters, tmax, sub in itertools.product(chainlib.PROPOSALS, (0, 0.3), (True, False), (1, 2, 3), (5,), (float("inf"),), (0.0, 0.5)):
         combos.append(dict(proposal=prop, outlier_prob=outl, concentration_update=conc, thin=thin, num_iters=iters, max_time=tmax, subtree_update_prob=sub, burnin=2))
+    combos += [dict(max_time=mt, burnin=1, num_iters=400, thin=th, proposal=pp) for mt in (0.03, 0.08, 0.15) for th in (2, 3, 7) for pp in ("bootstrap", "semi-adapted")]
     combos += [dict(max_time=0, burnin=3, num_iters=4, thin=2), dict(num_iters=1, thin=3), dict(num_iters=7, thin=3, concentration_update=True, outlier_prob=0.3, subtree_update_prob=1.0)]
     if not thorough:
-        combos = combos[::3] + combos[-3:]
+        combos = combos[:72:3] + combos[72::2] + combos[-3:]
     tasks = [(k, o) for k, o in enumerate(combos)]
 
     def task(arg):
